@@ -40,7 +40,7 @@ TOKEN = re.compile(
     r"\b(LOCK|UNLOCK|TSIGNAL|INIT_MUTEX|TINI_MUTEX|INIT_COND|TINI_COND)\s*\(\s*([^()]*?)\s*\)"
     r"|\bWAIT\s*\(\s*([^(),]*?)\s*,\s*([^()]*?)\s*\)"
     r"|\b(pthread_create|pthread_join|THREAD_JOIN|rfbIncrClientRef|rfbDecrClientRef|rfbClientIteratorNext|"
-    r"rfbGetClientIterator|rfbReleaseClientIterator|rfbCloseClient|rfbClientConnectionGone|rfbWriteExact|"
+    r"rfbGetClientIteratorWithClosed|rfbGetClientIterator|rfbReleaseClientIterator|rfbCloseClient|rfbClientConnectionGone|rfbWriteExact|"
     r"rfbShutdownSockets|rfbStartOnHoldClient|rfbNewClient|free)\s*\("
     r"|\bwrite\s*\(\s*([a-zA-Z_>\-\.]*pipe_notify[a-z_]*)"
     r"|\b(return|break|continue)\b"
